@@ -2107,7 +2107,17 @@ func (p *parser) parseCallOrConversion(fun ast.Expr, isCmd bool) *ast.CallExpr {
 	p.exprLev--
 	var noParenEnd token.Pos
 	if isCmd {
-		noParenEnd = p.pos
+		// position immediately after the last token of the command-style call
+		switch n := len(list); {
+		case rparen != token.NoPos: // f (a, b): tuple argument list
+			noParenEnd = rparen + 1
+		case ellipsis.IsValid():
+			noParenEnd = ellipsis + 3 // len("...")
+		case n > 0:
+			noParenEnd = list[n-1].End()
+		default:
+			noParenEnd = fun.End()
+		}
 	} else if rparen == token.NoPos {
 		rparen = p.expectClosing(token.RPAREN, "argument list")
 	}
